@@ -178,6 +178,7 @@ def write_evidence(prop, tier, mod, results, violations, known_hits, errors, wal
             "points": sum(r["translator_validation"]["points"] for r in results),
             "max_rel_dev": max([r["translator_validation"]["max_rel_dev"] for r in results] + [0.0]),
         },
+        "cross_solver_cvc5": {k: sum(r.get("cross_solver", {}).get(k, 0) for r in results) for k in ("checked", "agree", "cvc5_unknown", "disagree")},
         "vacuity_twins": {
             "checked": sum(r["twins"]["checked"] for r in results),
             "sat": sum(r["twins"]["sat"] for r in results),
@@ -185,7 +186,7 @@ def write_evidence(prop, tier, mod, results, violations, known_hits, errors, wal
         "samples": samples,
         "known_findings_observed": [v["key"] for v in known_hits],
         "harness_errors": errors[:10],
-        "solver": "z3 " + __import__("z3").get_version_string(),
+        "solver": "z3 " + __import__("z3").get_version_string() + " (deciding); cvc5 python wheel re-decides 2 obligations per unit",
         "exhaustive": False,
     }
     ev = {
